@@ -3,7 +3,7 @@ are rejected.  Members are described by small symbolic integers; the front-end v
 parser are called directly on model members built from them (i.e. below the grammar), the generated Python text of
 the real translator is exec-ed against the real runtime (prophy.optional / array / bytes / metaclasses)."""
 
-TYPES = ['u8', 'i32', 'float', 'EN', 'SF', 'SD', 'SU', 'UN']        # builtin ints, float, enum, fixed / dynamic / unlimited struct, union
+TYPES = ['u8', 'i32', 'float', 'EN', 'SF', 'SD', 'SU', 'SDU', 'UN']  # builtin ints, float, enum, fixed / dynamic / unlimited struct, dynamic array + unlimited tail, union
 FORMS = ['plain', 'optional', 'fixed', 'dynamic', 'limited', 'greedy', 'ext']
 SIZER_T = ['u8', 'i32', 'float', 'EN', 'SF', 'TU8']                 # TU8: typedef of u8
 
@@ -24,6 +24,9 @@ def env():
         UN=model.Union('UN', [model.UnionMember('a', 'u8', '1')]),
         TU8=model.Typedef('TU8', 'u8'),
     )
+    # a dynamic array followed by a nested unlimited struct: unlimited, although its own last member is not greedy
+    nodes['SDU'] = model.Struct('SDU', [model.StructMember('n', 'u32'), model.StructMember('x', 'u8', bound='n'),
+                                        model.StructMember('t', 'SU', definition=nodes['SU'])])
 
     class EN(prophy.with_metaclass(prophy.enum_generator, prophy.enum)):
         _enumerators = [('EN_A', 0), ('EN_B', 1)]
@@ -37,9 +40,12 @@ def env():
     class SU(prophy.with_metaclass(prophy.struct_generator, prophy.struct)):
         _descriptor = [('x', prophy.array(prophy.u8))]
 
+    class SDU(prophy.with_metaclass(prophy.struct_generator, prophy.struct)):
+        _descriptor = [('n', prophy.u32), ('x', prophy.array(prophy.u8, bound='n')), ('t', SU)]
+
     class UN(prophy.with_metaclass(prophy.union_generator, prophy.union)):
         _descriptor = [('a', prophy.u8, 1)]
-    _ENV.update(nodes=nodes, classes=dict(EN=EN, SF=SF, SD=SD, SU=SU, UN=UN, TU8=prophy.u8))
+    _ENV.update(nodes=nodes, classes=dict(EN=EN, SF=SF, SD=SD, SU=SU, SDU=SDU, UN=UN, TU8=prophy.u8))
     return _ENV
 
 
@@ -50,7 +56,7 @@ def _pick(values, i):
     return values[-1]
 
 
-STIFF = {'u8': 0, 'i32': 0, 'float': 0, 'EN': 0, 'SF': 0, 'SD': 1, 'SU': 2, 'UN': 0}
+STIFF = {'u8': 0, 'i32': 0, 'float': 0, 'EN': 0, 'SF': 0, 'SD': 1, 'SU': 2, 'SDU': 2, 'UN': 0}
 
 
 def mk_member(name, tname, form, sizer_name):
@@ -91,8 +97,8 @@ def legal_member(tname, form, is_last):
 
 def struct_coherent(t0, f0, t1, f1, has_post, sizer_pos, sizer_t, dup_name):
     """front-end acceptance => runtime class creation succeeds; front-end acceptance => all documented rules hold.
-    sizer_pos: 0 before the arrays, 1 after, 2 missing (used when a member has form 'ext'); dup_name: second member
-    reuses the first member's name"""
+    sizer_pos: 0 before the arrays, 1 after, 2 missing, 3 the array names itself as its sizer (used when a member has
+    form 'ext'); dup_name: second member reuses the first member's name"""
     import prophy
     from prophyc import model
     from prophyc.parsers.prophy import Parser
@@ -106,8 +112,9 @@ def struct_coherent(t0, f0, t1, f1, has_post, sizer_pos, sizer_t, dup_name):
     sizer = [model.StructMember('sz', {'float': 'r32'}.get(st, st), definition=e['nodes'].get(st))]
     if uses_ext and sizer_pos == 0:
         members += sizer
-    members += mk_member('m0', tn0, fm0, 'sz')
-    members += mk_member('m0' if dup_name else 'm1', tn1, fm1, 'sz')
+    n1 = 'm0' if dup_name else 'm1'
+    members += mk_member('m0', tn0, fm0, 'm0' if sizer_pos == 3 else 'sz')
+    members += mk_member(n1, tn1, fm1, n1 if sizer_pos == 3 else 'sz')
     if uses_ext and sizer_pos == 1:
         members += sizer
     if has_post:
